@@ -232,6 +232,17 @@ end:
 	return ret;
 }
 
+int
+asn1c_emit_PER_character_map_tables(arg_t *arg) {
+	int save_target = arg->target->target;
+
+	REDIR(OT_CTABLES);
+	asn1c_emit_constraint_tables(arg, 0);
+	REDIR(save_target);
+
+	return 0;
+}
+
 static int
 asn1c_emit_constraint_tables(arg_t *arg, int got_size) {
 	asn1c_integer_t range_start;
@@ -248,6 +259,11 @@ asn1c_emit_constraint_tables(arg_t *arg, int got_size) {
 	if(!ct) return 0;
 
 	etype = _find_terminal_type(arg);
+
+	/* Without the checking code, only the PER character maps use these. */
+	if((arg->flags & A1C_NO_CONSTRAINTS)
+	&& !((arg->flags & A1C_GEN_PER) && (etype & ASN_STRING_KM_MASK)))
+		return 0;
 
 	range = asn1constraint_compute_constraint_range(arg->expr->Identifier, etype, ct, ACT_CT_FROM, 0,0,0);
 	if(!range) return 0;
@@ -393,6 +409,11 @@ asn1c_emit_constraint_tables(arg_t *arg, int got_size) {
 		 * instead of table lookups. Table would be
 		 * to large or otherwise inappropriate (too sparse?).
 		 */
+	}
+
+	if(arg->flags & A1C_NO_CONSTRAINTS) {
+		asn1constraint_range_free(range);
+		return 1;
 	}
 
 	OUT("static int check_permitted_alphabet_%d(const void *sptr) {\n",
